@@ -41,7 +41,7 @@ def shard_setup(obs) -> None:
 
 
 def gen_cases(tier: str, seed: int):
-    n = {"quick": 72, "thorough": 800}[tier]
+    n = {"quick": 72, "thorough": 2000}[tier]
     rng = np.random.default_rng([seed, 13])
     yield {"cfg": {"n_chain": 2, "n_warm": 2, "n_main": 3, "adapters": ["step"], "seed": 5, "trace": ["pos"], "transition": "static",
                    "init": "state"}, "modes": [{"n_process": None}], "seed": [seed, 0]}
